@@ -14,7 +14,8 @@ RULE = ("random Hypergraph instances: 2-9 nodes with labels from a sparse intege
         "0..max+1 queried, present or absent), weighted (weights k/4) or unweighted; every matrix routine of "
         "hypergraphx.linalg.linalg and the Hypergraph methods, both keep_isolated_nodes, dense matrices and mapping dicts "
         "compared entry by entry with the Lean model and with the definition; uniform hypergraphs on 0..N-1 for the tensor; "
-        "random TemporalHypergraph records over sparse times for the temporal matrices; fixed cases: 300 hyperedges sharing "
+        "random TemporalHypergraph records over sparse times for the temporal matrices; hye_list_to_binary_incidence called "
+        "directly on index hyperedges with repeated nodes and absent / larger / too small shapes; fixed cases: 256 and 300 hyperedges sharing "
         "two nodes (adjacency), two hyperedges sharing 256 / 300 nodes (dual). A case is distinct by its canonical node and "
         "hyperedge lists; non-trivial when the labels are not 0..N-1 and at least one pair of hyperedges overlaps")
 ASSUMPTIONS = ["hyperedges are non-empty duplicate-free node tuples, distinct as sets (what Hypergraph stores)",
@@ -141,6 +142,19 @@ def gen_tensor(rng):
     if rng.random() < 0.2 and n >= 3 and k < n:
         edges.append(list(range(k + 1)))                 # non-uniform: the routine must reject
     return {"kind": "tensor", "n": n, "edges": edges}
+
+
+def gen_hye(rng):
+    hy = [[rng.randint(0, 6) for _ in range(rng.randint(0, 4))] for _ in range(rng.randint(0, 5))]
+    n = max([x for e in hy for x in e], default=-1) + 1
+    r = rng.random()
+    if r < 0.3:
+        shape = None
+    elif r < 0.7:
+        shape = [n + rng.randint(0, 2), len(hy) + rng.randint(0, 2)]
+    else:
+        shape = [max(0, n + rng.randint(-2, 1)), max(0, len(hy) + rng.randint(-2, 1))]
+    return {"kind": "hye", "hyes": hy, "shape": shape}
 
 
 def gen_temporal(rng):
@@ -312,6 +326,16 @@ def check_static(ctx, drv, case):
             return None
         return d, m
 
+    def same_without_mapping(what, d_with, f, *a, **k):
+        """the call without return_mapping must return the same matrix alone"""
+        res = guarded(f, *a, **k)
+        if res[0] == "exc":
+            ctx.violation(case, f"{what} without return_mapping raised {res[1]}")
+            return
+        dd = guarded(dense, res[1])
+        if dd[0] == "exc" or dd[1] != d_with:
+            ctx.violation(case, f"{what}: the matrix returned without return_mapping differs from the one returned with it")
+
     # ---- binary incidence, incidence, adjacency, dual (functions and methods) ----------------------------
     base_map = None
     if profile in ("full", "dual-only", "adjacency-only"):
@@ -326,10 +350,9 @@ def check_static(ctx, drv, case):
             if what.startswith("linalg"):
                 ob.add("mapping", model_map_str(kind, m))
                 ob.add("bininc", mat_str(d[2]))
-        # without return_mapping the same matrix must come back
-        res = guarded(L.binary_incidence_matrix, h)
-        if res[0] == "exc":
-            ctx.violation(case, "binary_incidence_matrix(return_mapping=False) raised " + res[1])
+                same_without_mapping("linalg.binary_incidence_matrix", d, L.binary_incidence_matrix, h)
+            else:
+                same_without_mapping("Hypergraph.binary_incidence_matrix", d, getattr(h, "binary_incidence_matrix"))
     if profile == "full":
         for what, res in routes("incidence_matrix", return_mapping=True):
             r = with_mapping(res, what, nodes)
@@ -340,6 +363,9 @@ def check_static(ctx, drv, case):
             expect_matrix(ctx, case, what, d, want, N, E)
             if what.startswith("linalg"):
                 ob.add("inc", mat_str(d[2]))
+                same_without_mapping("linalg.incidence_matrix", d, L.incidence_matrix, h)
+            else:
+                same_without_mapping("Hypergraph.incidence_matrix", d, getattr(h, "incidence_matrix"))
     if profile in ("full", "adjacency-only"):
         for what, res in routes("adjacency_matrix", return_mapping=True):
             r = with_mapping(res, what, nodes)
@@ -350,6 +376,9 @@ def check_static(ctx, drv, case):
             expect_matrix(ctx, case, what, d, want, N, N)
             if what.startswith("linalg"):
                 ob.add("adj", mat_str(d[2]))
+                same_without_mapping("linalg.adjacency_matrix", d, L.adjacency_matrix, h)
+            else:
+                same_without_mapping("Hypergraph.adjacency_matrix", d, getattr(h, "adjacency_matrix"))
     if profile in ("full", "dual-only"):
         for what, res in routes("dual_random_walk_adjacency", return_mapping=True):
             r = with_mapping(res, what, nodes)
@@ -360,6 +389,9 @@ def check_static(ctx, drv, case):
             expect_matrix(ctx, case, what, d, want, E, E)
             if what.startswith("linalg"):
                 ob.add("dual", mat_str(d[2]))
+                same_without_mapping("linalg.dual_random_walk_adjacency", d, L.dual_random_walk_adjacency, h)
+            else:
+                same_without_mapping("Hypergraph.dual_random_walk_adjacency", d, getattr(h, "dual_random_walk_adjacency"))
 
     # ---- per-order variants ------------------------------------------------------------------------------
     if profile == "full":
@@ -389,6 +421,7 @@ def check_static(ctx, drv, case):
                 expect_matrix(ctx, case, what, dm, want, len(want_nodes), len(ed))
                 ob.add(f"incord {d_} {int(keep)}", mat_str(dm[2]))
                 ob.add(f"mapord {d_} {int(keep)}", model_map_str(kind, m))
+                same_without_mapping(what, dm, L.incidence_matrix_by_order, h, d_, keep_isolated_nodes=keep)
                 if keep and all_inc[0] == "ok" and d_ in all_inc[1]:
                     try:
                         same = dense(all_inc[1][d_])[2] == dm[2]
@@ -410,6 +443,7 @@ def check_static(ctx, drv, case):
                     A_def = adjacency_definition(lab, ed)
                     expect_matrix(ctx, case, what, dm, A_def, N, N)
                 ob.add(f"adjord {d_}", mat_str(dm[2]))
+                same_without_mapping(what, dm, L.adjacency_matrix_by_order, h, d_)
             # degree matrix and Laplacian: rows follow the node mapping of the incidence matrix
             if base_map is not None:
                 lab = [base_map[i] for i in range(N)]
@@ -518,6 +552,41 @@ def check_tensor(ctx, drv, case):
 
 
 # --------------------------------------------------------------------------------------------------
+# hye_list_to_binary_incidence called directly (index hyperedges, optional shape)
+
+def check_hye(ctx, drv, case):
+    from hypergraphx.linalg import linalg as L
+    hy = [tuple(e) for e in case["hyes"]]
+    shape = tuple(case["shape"]) if case["shape"] is not None else None
+    n = max([x for e in hy for x in e], default=-1) + 1
+    res = guarded(L.hye_list_to_binary_incidence, hy, shape)
+    ob = Obs()
+    line = "hye " + (hgxv.enc_list(shape) if shape is not None else "-") + " " + hgxv.enc_lists(hy)
+    too_small = shape is not None and (shape[0] < n or shape[1] < len(hy))
+    ctx.count("hye_rejected" if too_small else "hye_accepted")
+    if too_small:
+        # the docstring announces that such a shape is refused
+        if res[0] != "exc":
+            ctx.violation(case, f"hye_list_to_binary_incidence accepted the shape {shape} although the hyperedges need {(n, len(hy))}")
+        ob.add(line, "rej")
+    elif res[0] == "exc":
+        ctx.violation(case, "hye_list_to_binary_incidence raised " + res[1])
+        ob.add(line, "exc")
+    else:
+        N, E = shape if shape is not None else (n, len(hy))
+        dd = guarded(dense, res[1])
+        if dd[0] == "exc":
+            ctx.violation(case, "hye_list_to_binary_incidence: result is not a matrix")
+            ob.add(line, "exc")
+        else:
+            want = [[1 if (j < len(hy) and i in hy[j]) else 0 for j in range(E)] for i in range(N)]
+            expect_matrix(ctx, case, "hye_list_to_binary_incidence", dd[1], want, N, E)
+            ob.add(line, mat_str(dd[1][2]))
+    ctx.case(repr(("hye", hy, shape)), any(len(set(e)) < len(e) for e in hy) or shape is not None, sample=None)
+    compare(ctx, drv, case, ob)
+
+
+# --------------------------------------------------------------------------------------------------
 # temporal hypergraph
 
 def check_temporal(ctx, drv, case):
@@ -590,6 +659,17 @@ def check_temporal(ctx, drv, case):
                 ob.add(f"tadjord {by_order} {t}", mat_str(dd[1][2]))
 
     per_time("linalg.temporal_adjacency_matrix", guarded(L.temporal_adjacency_matrix, th, True))
+    for what, f, args in (("temporal_adjacency_matrix", L.temporal_adjacency_matrix, ()),
+                          ("TemporalHypergraph.temporal_adjacency_matrix", th.temporal_adjacency_matrix, ())):
+        r1, r2 = guarded(f, *((th,) if f is L.temporal_adjacency_matrix else ()), True), guarded(f, *((th,) if f is L.temporal_adjacency_matrix else ()))
+        if r1[0] == "ok":
+            try:
+                same = r2[0] == "ok" and sorted(r2[1].keys()) == sorted(r1[1][0].keys()) and all(
+                    dense(r2[1][t]) == dense(r1[1][0][t]) for t in r2[1])
+            except Exception:  # noqa: BLE001
+                same = False
+            if not same:
+                ctx.violation(case, f"{what}: the result without return_mapping differs from the matrices returned with it")
     n_obs = len(ob.lines)
     per_time("TemporalHypergraph.temporal_adjacency_matrix", guarded(th.temporal_adjacency_matrix, True))
     del ob.lines[n_obs:], ob.expect[n_obs:]
@@ -622,16 +702,18 @@ def check_temporal(ctx, drv, case):
 
 def check_case(ctx, drv, case):
     old = signal.signal(signal.SIGALRM, _alarm)
-    signal.alarm(60)
+    signal.alarm(20)
     try:
         if case["kind"] == "static":
             check_static(ctx, drv, case)
         elif case["kind"] == "tensor":
             check_tensor(ctx, drv, case)
+        elif case["kind"] == "hye":
+            check_hye(ctx, drv, case)
         else:
             check_temporal(ctx, drv, case)
     except CaseTimeout:
-        ctx.violation(case, "the matrix routines did not return within 60 s on this input")
+        ctx.violation(case, "the matrix routines did not return within 20 s on this input")
     finally:
         signal.alarm(0)
         signal.signal(signal.SIGALRM, old)
@@ -641,15 +723,17 @@ def run(ctx):
     drv = ctx.driver() if ctx.model_available else None
     for case in fixed_cases():
         check_case(ctx, drv, case)
-    n = ctx.scale(120, 2500)
+    n = ctx.scale(400, 9000)
     for i in range(n):
-        r = i % 10
+        r = i % 12
         if r < 6:
             case = gen_static(ctx.rng)
         elif r < 8:
             case = gen_temporal(ctx.rng)
-        else:
+        elif r < 10:
             case = gen_tensor(ctx.rng)
+        else:
+            case = gen_hye(ctx.rng)
         check_case(ctx, drv, case)
         if ctx.too_many() or (ctx.time_left() is not None and ctx.time_left() < 8):
             break
